@@ -1,9 +1,55 @@
 import PasetoModel.Forms
 import PasetoModel.Pae
 import Driver.Parse
+import PasetoModel.Backend
+import PasetoModel.Asym
 /-! Line-protocol driver: executes the model's definitions (the ones the theorems are about) on
     the operation lines produced by the harness.  One result line per operation line. -/
 open PM
+
+
+/-- key decode for local keys: exactly 32 bytes -/
+def localKey (raw : Bytes) : Res Bytes := if raw.length = 32 then .ok raw else .err .invalidKey
+
+def locSeal (S : LocalScheme) (be : Backend) (key nonce msg f a : Bytes) : Res String :=
+  (localKey key).bind fun k =>
+  (sealLocal S (tokHdr be .localP) k (nonce ++ msg) f a).map fun payload =>
+    toHex (showToken (Extracted.versionHeader be) jsonSuffix (Extracted.kindHeader .localK) ⟨payload, f⟩)
+
+/-- parse, unseal, decode (raw payload), no validation; reports which caller code ran -/
+def locOpen (S : LocalScheme) (be : Backend) (key tok a : Bytes) : String :=
+  match localKey key with
+  | .err e => "err " ++ errName e ++ " dec=0 val=0"
+  | .panic _ => "panic"
+  | .ok k =>
+  match parseToken (Extracted.versionHeader be) jsonSuffix (Extracted.kindHeader .localK) FooterKind.vec.ok tok with
+  | .err e => "err " ++ errName e ++ " dec=0 val=0"
+  | .panic _ => "panic"
+  | .ok t =>
+    let (r, tr) := tokenUnseal (unsealLocal S (tokHdr be .localP) k t.payload t.footer a) (fun ct => some ct) (fun _ => .ok ())
+    let d := (tr.filter (fun e => match e with | .decode _ => true | _ => false)).length
+    let v := (tr.filter (fun e => match e with | .validate => true | _ => false)).length
+    match r with
+    | .ok m => s!"ok {toHex m} {toHex t.footer} dec={d} val={v}"
+    | .err e => s!"err {errName e} dec={d} val={v}"
+    | .panic _ => "panic"
+
+def pubOpen (be : Backend) (key tok a : Bytes) : String :=
+  match keyDecode be .publicK key with
+  | .err e => "err " ++ errName e ++ " dec=0 val=0"
+  | .panic _ => "panic"
+  | .ok k =>
+  match parseToken (Extracted.versionHeader be) jsonSuffix (Extracted.kindHeader .publicK) FooterKind.vec.ok tok with
+  | .err e => "err " ++ errName e ++ " dec=0 val=0"
+  | .panic _ => "panic"
+  | .ok t =>
+    let (r, tr) := tokenUnseal (unsealPublic (publicScheme be) (tokHdr be .publicP) k t.payload t.footer a) (fun ct => some ct) (fun _ => .ok ())
+    let d := (tr.filter (fun e => match e with | .decode _ => true | _ => false)).length
+    let v := (tr.filter (fun e => match e with | .validate => true | _ => false)).length
+    match r with
+    | .ok m => s!"ok {toHex m} {toHex t.footer} dec={d} val={v}"
+    | .err e => s!"err {errName e} dec={d} val={v}"
+    | .panic _ => "panic"
 
 def parsePieces (s : String) : Option (List (List Bytes)) :=
   if s == "." then some [] else
@@ -35,6 +81,32 @@ def step (line : String) : Option String :=
   | ["b64.dec", s] => do
       let s ← ofHex s
       some (match B64.decodeVec s with | some d => "ok " ++ toHex d | none => "err base64")
+  | ["loc.open", be, key, tok, a, _want] => do
+      let be ← Backend.ofString? be
+      let key ← ofHex key; let tok ← ofHex tok; let a ← ofHex a
+      some (locOpen (localScheme be) be key tok a)
+  | ["pub.open", be, key, tok, a, _want] => do
+      let be ← Backend.ofString? be
+      let key ← ofHex key; let tok ← ofHex tok; let a ← ofHex a
+      some (pubOpen be key tok a)
+  | [op, be, sk, msg, f, a, rnd] =>
+      if op == "pub.sign" || op == "m.pub.sign" then do
+        let be ← Backend.ofString? be
+        let sk ← ofHex sk; let msg ← ofHex msg; let f ← ofHex f; let a ← ofHex a; let rnd ← ofHex rnd
+        some (showRes ((keyDecode be .secretK sk).bind fun k =>
+          (sealPublic (publicScheme be) (tokHdr be .publicP) k msg f a rnd).map fun payload =>
+            toHex (showToken (Extracted.versionHeader be) jsonSuffix (Extracted.kindHeader .publicK) ⟨payload, f⟩)))
+      else if op == "loc.seal" then do
+        let be ← Backend.ofString? be
+        let key ← ofHex sk; let nonce ← ofHex msg; let msg ← ofHex f; let f ← ofHex a; let a ← ofHex rnd
+        some (showRes (locSeal (localScheme be) be key nonce msg f a))
+      else if op == "m.spec.loc.seal" then do
+        let be ← Backend.ofString? be
+        let key ← ofHex sk; let nonce ← ofHex msg; let msg ← ofHex f; let f ← ofHex a; let a ← ofHex rnd
+        let S := specLocalScheme be.version (cfgOf be)
+        let S' : LocalScheme := { S with synth := noSynth }
+        some (showRes (locSeal S' be key nonce msg f a))
+      else none
   | ["val", v, c] => do
       let v ← parseV v
       let c ← parseClaims c
@@ -131,7 +203,8 @@ partial def loop (h : IO.FS.Stream) (out : IO.FS.Stream) : IO Unit := do
   if l.isEmpty || l.startsWith "#" then
     out.putStrLn l
   else
-    out.putStrLn ((step l).getD "bad-op")
+    if l.startsWith "o." then out.putStrLn "skip"
+    else out.putStrLn ((step l).getD "bad-op")
   loop h out
 
 def main : IO Unit := do
